@@ -1088,6 +1088,9 @@ func runC05(c *Ctx) {
 		}
 		r.Probe("sugared logger widened by WithOptions(WrapCore)")
 	}
+	if nTasks == 1 && !r.Failed() && g.Chance(3) {
+		c05budget(c)
+	}
 	if nTasks > 1 {
 		// interval rule: for each log call the valuations possibly in force
 		// between its invocation and its return
@@ -1147,4 +1150,76 @@ func runC05(c *Ctx) {
 		c.Nontrivial = true
 	}
 	_ = unsafe.Pointer(nil)
+}
+
+// c05budget: a destination behind a dynamic level and a sampler with a small
+// budget, next to a sibling with a level of its own. The entries the
+// destination receives are the first N of each level and message among those
+// its level enabled when they were logged: entries it did not enable reach it
+// in no form, whatever the sibling enables and whichever way they entered
+// (DPanic entries are checked against the cores even when the logger's own
+// level test would have turned them away).
+func c05budget(c *Ctx) {
+	g := c.G
+	levels := []zapcore.Level{zapcore.DebugLevel, zapcore.InfoLevel, zapcore.WarnLevel, zapcore.ErrorLevel, zapcore.DPanicLevel}
+	destLevel := zap.NewAtomicLevelAt(levels[g.Draw(5)])
+	sibLevel := zap.NewAtomicLevelAt(levels[g.Draw(5)])
+	dest, dlogs := observer.New(destLevel)
+	sib, _ := observer.New(sibLevel)
+	n := 1 + g.Draw(3)
+	samp := zapcore.NewSamplerWithOptions(dest, time.Hour, n, 0)
+	var core zapcore.Core
+	shape := g.Draw(4)
+	switch shape {
+	case 0:
+		core = zapcore.NewTee(sib, samp)
+	case 1:
+		core = samp
+	case 2:
+		core = zapcore.NewTee(samp, sib)
+	default:
+		core = zapcore.NewTee(sib, zapcore.NewTee(samp))
+	}
+	lg := zap.New(core)
+	type key struct {
+		l zapcore.Level
+		m string
+	}
+	count := map[key]int{}
+	var want, hist []string
+	for i, nOps := 0, 8+g.Draw(20); i < nOps; i++ {
+		switch g.Weighted(6, 2, 1) {
+		case 0:
+			l, m := levels[g.Draw(5)], pick(g, "budget-a", "budget-b")
+			hist = append(hist, fmt.Sprintf("%s(%s)", l, m))
+			if destLevel.Enabled(l) {
+				k := key{l, m}
+				count[k]++
+				if count[k] <= n {
+					want = append(want, fmt.Sprintf("%s %s", l, m))
+				}
+			}
+			if g.Chance(2) {
+				lg.Log(l, m)
+			} else if ce := lg.Check(l, m); ce != nil {
+				ce.Write()
+			}
+		case 1:
+			l := levels[g.Draw(5)]
+			destLevel.SetLevel(l)
+			hist = append(hist, fmt.Sprintf("dest:=%s", l))
+		case 2:
+			l := levels[g.Draw(5)]
+			sibLevel.SetLevel(l)
+			hist = append(hist, fmt.Sprintf("sibling:=%s", l))
+		}
+	}
+	var got []string
+	for _, e := range dlogs.All() {
+		got = append(got, fmt.Sprintf("%s %s", e.Level, e.Message))
+	}
+	c.R.Probe("destination behind a dynamic level and a small sampling budget")
+	if strings.Join(got, "|") != strings.Join(want, "|") {
+		c.Fail("C05: a destination behind a sampler did not receive the first entries its level enabled", "shape %d, first %d per level and message; history %v; destination received %v, expected %v", shape, n, hist, got, want)
+	}
 }
